@@ -315,7 +315,7 @@ def parse_log(path):
 # --------------------------------------------------------------------- sanitizer report parsing
 
 CORE_PATH_RE = re.compile(r"(lltdResponder/|os/esp32/|os/linux/lltd_port\.c)")
-FRAME_RE = re.compile(r"^\s*#(\d+) 0x[0-9a-f]+ (?:in )?(\S+) (\S+?)(?::(\d+))?(?::\d+)?\s*$")
+FRAME_RE = re.compile(r"^\s*#(\d+) (?:0x[0-9a-f]+ (?:in )?)?(\S+) (\S+?)(?::(\d+))?(?::\d+)?(?: \(\S+\))?\s*$")
 UB_RE = re.compile(r"^(\S+?):(\d+):(\d+): runtime error: (.*)$")
 
 
